@@ -54,7 +54,13 @@ def _calls(fn, src):
     return sorted(out, key=lambda n: (n.lineno, n.col_offset))
 
 
+WHENCE = {'os.SEEK_SET': 0, 'os.SEEK_CUR': 1, 'os.SEEK_END': 2,
+          'io.SEEK_SET': 0, 'io.SEEK_CUR': 1, 'io.SEEK_END': 2}
+
+
 def _int(node):
+    if ast.unparse(node) in WHENCE:
+        return WHENCE[ast.unparse(node)]
     if isinstance(node, ast.Constant) and isinstance(node.value, int) \
             and not isinstance(node.value, bool):
         return node.value
@@ -70,8 +76,13 @@ def _z(k):
 
 
 def seek_sites(fn):
+    """ the fd.seek calls inside the try statement of apply_to_file (the
+    cached-offset branch before it belongs to C08 and may live in a helper) """
+    tries = [n for n in fn.body if isinstance(n, ast.Try)]
+    if len(tries) != 1:
+        raise Bad("apply_to_file: one try statement expected")
     sites = []
-    for c in _calls(fn, 'fd.seek'):
+    for c in _calls(tries[0], 'fd.seek'):
         if c.keywords or not 1 <= len(c.args) <= 2:
             raise Bad(f"fd.seek call shape: {ast.unparse(c)}")
         a0 = ast.unparse(c.args[0])
@@ -104,7 +115,9 @@ def _tfld_arg(c, lenexpr=None):
             and ast.unparse(a.left) == 'offset':
         ga = f"(offset {'+' if isinstance(a.op, ast.Add) else '-'} " \
              f"{_z(_int(a.right))})"
-    elif lenexpr is not None and sa == lenexpr:
+    elif lenexpr is not None and isinstance(a, ast.Call) and \
+            ast.unparse(a.func) == lenexpr and not a.keywords and \
+            [_int(x) for x in a.args] == [0, 2]:
         ga = 'len'
     else:
         raise Bad(f"start offset argument: {sa}")
@@ -182,7 +195,7 @@ def run(fn):
     calls = _calls(fn, 'self.try_find_line_with_date')
     if len(calls) != 1:
         raise Bad("one last-line probe expected in run()")
-    probe = _tfld_arg(calls[0], lenexpr='self.file.seek(0, 2)')
+    probe = _tfld_arg(calls[0], lenexpr='self.file.seek')
     txt = ("Definition run_tfld_args (len : Z) : Z * option Z * bool :=\n"
            f"  let offset := 0 in {probe}.\n")
     # first-line shortcut
